@@ -27,7 +27,8 @@ ALL_PARAMS = ['factor_update_steps', 'inv_update_steps', 'damping',
 
 
 def ref_constants(cfg: kaisa.Config, alphabet: list[str], micro: list[int],
-                  sched_args: list[int], depth: int) -> str:
+                  sched_args: list[int], depth: int,
+                  strict: bool = False) -> str:
     def ispec(v: Any) -> str:
         if isinstance(v, str):
             return f'[kind |-> "fn", v |-> 0, name |-> "{v}"]'
@@ -47,7 +48,7 @@ def ref_constants(cfg: kaisa.Config, alphabet: list[str], micro: list[int],
         f'FloatKind == {tla(fk)}\nSched == {tla(set(cfg.sched))}\n'
         f'SchedFn == {tla(sf)}\nAlphabet == {tla(set(alphabet))}\n'
         f'Micro == {tla(set(micro))}\nSchedArgs == {tla(set(sched_args))}\n'
-        f'MaxDepth == {depth}\n'
+        f'MaxDepth == {depth}\nStrict == {tla(bool(strict))}\n'
     )
 
 
@@ -58,11 +59,12 @@ PROPS = ['StepCountsByOne', 'FactorsChangeOnlyOnUpdateSteps',
 
 def check_spec(cfg: kaisa.Config, alphabet: list[str], micro: list[int],
                sched_args: list[int], depth: int, workers: int = 4,
-               timeout: int = 1200) -> TLCResult:
+               timeout: int = 1200, strict: bool = False) -> TLCResult:
     """Exhaustive TLC run of KfacRef (history hidden by VIEW)."""
     name = 'MC_KfacRef'
     mod = instantiate('KfacRef', name,
-                      ref_constants(cfg, alphabet, micro, sched_args, depth))
+                      ref_constants(cfg, alphabet, micro, sched_args, depth,
+                                    strict))
     cfgt = 'SPECIFICATION Spec\nVIEW view\nINVARIANT TypeOK\n' + ''.join(
         f'PROPERTY {p}\n' for p in PROPS) + 'CHECK_DEADLOCK FALSE\n'
     return run_tlc(name, cfg_text=cfgt, extra_modules={name: mod},
@@ -72,6 +74,7 @@ def check_spec(cfg: kaisa.Config, alphabet: list[str], micro: list[int],
 def gen_behaviours(cfg: kaisa.Config, alphabet: list[str], micro: list[int],
                    sched_args: list[int], depth: int, num: int, seed: int,
                    timeout: int = 600, exhaustive: bool = False,
+                   strict: bool = False,
                    ) -> tuple[list[list[dict]], TLCResult]:
     """Behaviours of KfacRef printed as JSON when they end.
 
@@ -81,7 +84,8 @@ def gen_behaviours(cfg: kaisa.Config, alphabet: list[str], micro: list[int],
     """
     name = 'MC_KfacRefGen'
     mod = instantiate('KfacRef', name,
-                      ref_constants(cfg, alphabet, micro, sched_args, depth))
+                      ref_constants(cfg, alphabet, micro, sched_args, depth,
+                                    strict))
     cfgt = ('SPECIFICATION Spec\nCONSTRAINT EmitDone\n'
             'CHECK_DEADLOCK FALSE\n')
     if exhaustive:
@@ -136,27 +140,41 @@ class Capture:
             h.remove()
 
 
+_LINALG_TLS = __import__('threading').local()
+_LINALG_PATCHED = False
+
+
+def _patch_linalg() -> None:
+    global _LINALG_PATCHED
+    if _LINALG_PATCHED:
+        return
+    _LINALG_PATCHED = True
+    for n in ('eigh', 'eig', 'inv'):
+        orig = getattr(torch.linalg, n)
+
+        def make(n, orig):
+            def f(x, *a, **k):
+                log = getattr(_LINALG_TLS, 'log', None)
+                if log is not None:
+                    log.append((n, x.shape[-1]))
+                return orig(x, *a, **k)
+            return f
+        setattr(torch.linalg, n, make(n, orig))
+
+
 class LinalgLog:
-    """Counts torch.linalg.{eigh,eig,inv} calls (refresh observation)."""
+    """Per-thread log of torch.linalg.{eigh,eig,inv} calls."""
 
     def __init__(self) -> None:
         self.calls: list[tuple[str, int]] = []
 
     def __enter__(self) -> 'LinalgLog':
-        self.orig = {n: getattr(torch.linalg, n) for n in ('eigh', 'eig', 'inv')}
-
-        def wrap(n):
-            def f(x, *a, **k):
-                self.calls.append((n, x.shape[-1]))
-                return self.orig[n](x, *a, **k)
-            return f
-        for n in self.orig:
-            setattr(torch.linalg, n, wrap(n))
+        _patch_linalg()
+        _LINALG_TLS.log = self.calls
         return self
 
     def __exit__(self, *a: Any) -> None:
-        for n, f in self.orig.items():
-            setattr(torch.linalg, n, f)
+        _LINALG_TLS.log = None
 
 
 def rel(a: torch.Tensor, b: torch.Tensor) -> float:
@@ -168,36 +186,43 @@ TOL_FACTOR = 2e-5
 TOL_GRAD = 2e-4
 
 
-def replay(cfg: kaisa.Config, hist: list[dict[str, Any]], seed: int,
-           ) -> dict[str, Any]:
-    """Drive the real preconditioner along `hist`; return mismatches."""
-    torch.set_num_threads(1)
-    mism: list[dict[str, Any]] = []
-    stats = {'max_factor_err': 0.0, 'max_grad_err': 0.0, 'steps': 0,
-             'raises': 0, 'max_cond': 0.0, 'nu_active': 0, 'loads': 0,
-             'refresh_checks': 0, 'max_resid': 0.0}
+PENDING = 'pending'
+
+
+def peek(layer: Any, attr: str) -> Any:
+    """Non-invasive read of a layer attribute that may hold a future: never
+    waits (waiting on a bucketed allreduce before the flush would hang and
+    would change the schedule of the code under test)."""
+    v = vars(layer).get('_' + attr, vars(layer).get(attr))
+    if isinstance(v, (torch._C.Future, torch.futures.Future)):
+        if not v.done():
+            return PENDING
+        v = v.value()
+    if isinstance(v, torch.Tensor):
+        return v.detach().clone()
+    return None
+
+
+def execute(cfg: kaisa.Config, hist: list[dict[str, Any]], seed: int,
+            rank: int, interp: Interp,
+            recs: list[dict[str, Any]] | None = None) -> list[dict[str, Any]]:
+    """Phase 1: drive the real preconditioner of one rank along `hist` and
+    record the projected state after every action (no comparison here)."""
+    from harness import simdist
+
     dtype = kaisa.DT[cfg.param_dtype]
-    rr = kaisa.RankRun(cfg, seed, 0)
+    simdist.set_ctx({'op': 'construct', 'n': -1})
+    rr = kaisa.RankRun(cfg, seed, rank)
     layers = {n: l.module.module for n, l in rr.registered()}
-    interp = Interp(cfg, layers)
-    cap = Capture(layers, interp)
-
-    def add(cat: str, i: int, msg: str) -> None:
-        mism.append({'cat': cat, 'at': i, 'act': hist[i]['act'], 'msg': msg})
-
-    def rebuild_hooks() -> None:
-        nonlocal cap, layers
-        cap.remove()
-        pid = cap.pid
-        layers = {n: l.module.module for n, l in rr.registered()}
+    if rank == 0:
         interp.layers = layers
-        cap = Capture(layers, interp)
-        cap.pid = pid
-
+    cap = Capture(layers, interp)
+    if recs is None:
+        recs = []
     for i, rec in enumerate(hist):
-        act, arg, x, obs = rec['act'], rec['arg'], rec['x'], rec['obs']
-        raised = None
-        pre_grads = None
+        act, arg = rec['act'], rec['arg']
+        simdist.set_ctx({'op': act, 'n': i})
+        out: dict[str, Any] = {'raised': None}
         ll = LinalgLog()
         try:
             with ll:
@@ -206,35 +231,53 @@ def replay(cfg: kaisa.Config, hist: list[dict[str, Any]], seed: int,
                     rr.model.zero_grad(set_to_none=True)
                     for mb in range(arg):
                         cap.pid += 1
-                        xb, yb = kaisa.make_batch(cfg, seed, 0, rr.it, mb, dtype)
-                        out = rr.model(xb)
-                        kaisa.loss_fn(out, yb, cfg.batch,
+                        xb, yb = kaisa.make_batch(cfg, seed, rank, rr.it, mb,
+                                                  dtype)
+                        o = rr.model(xb)
+                        kaisa.loss_fn(o, yb, cfg.batch,
                                       cfg.grad_scaler).backward()
-                    if cfg.grad_scaler is not None:
-                        with torch.no_grad():
+                    with torch.no_grad():
+                        for p in rr.model.parameters():
+                            if p.grad is None:
+                                continue
+                            if cfg.grad_scaler is not None:
+                                p.grad.div_(cfg.grad_scaler)
+                    if cfg.W > 1:
+                        with simdist.owner('driver'):
                             for p in rr.model.parameters():
                                 if p.grad is not None:
-                                    p.grad.div_(cfg.grad_scaler)
+                                    torch.distributed.all_reduce(p.grad)
+                                    p.grad.div_(cfg.W)
                     rr.it += 1
                 elif act == 'fwdonly':
                     rr.model.train(True)
                     rr.model.zero_grad(set_to_none=True)
                     cap.pid += 1
-                    xb, yb = kaisa.make_batch(cfg, seed, 0, rr.it, 0, dtype)
+                    xb, yb = kaisa.make_batch(cfg, seed, rank, rr.it, 0, dtype)
                     rr.model(xb)
                     rr.it += 1
                 elif act == 'eval':
                     rr.model.train(False)
                     rr.model.zero_grad(set_to_none=True)
                     cap.pid += 1
-                    xb, yb = kaisa.make_batch(cfg, seed, 0, rr.it, 0, dtype)
+                    xb, yb = kaisa.make_batch(cfg, seed, rank, rr.it, 0, dtype)
                     before = state_digest(rr)
                     kaisa.loss_fn(rr.model(xb), yb, cfg.batch, None).backward()
-                    if state_digest(rr) != before:
-                        add('evalframe', i, 'K-FAC state changed in eval mode')
+                    out['evalframe_ok'] = state_digest(rr) == before
+                    if cfg.W > 1:
+                        with simdist.owner('driver'):
+                            for p in rr.model.parameters():
+                                if p.grad is not None:
+                                    torch.distributed.all_reduce(p.grad)
+                                    p.grad.div_(cfg.W)
                     rr.it += 1
                 elif act == 'step':
-                    pre_grads = rr.grads()
+                    out['pre_grads'] = rr.grads()
+                    a = rr.pre._assignment
+                    me = rank
+                    out['expected_dec'] = sum(
+                        int(a.inv_worker(n, f) == me)
+                        for n in a.get_layers() for f in a.get_factors(n))
                     rr.pre.step()
                 elif act == 'reset':
                     rr.pre.reset_batch()
@@ -248,14 +291,71 @@ def replay(cfg: kaisa.Config, hist: list[dict[str, Any]], seed: int,
                     rr.ckpt = torch.load(buf, weights_only=False)
                 elif act == 'load':
                     rr.apply(['load', bool(arg)])
-                    rebuild_hooks()
-                    stats['loads'] += 1
+                    cap.remove()
+                    pid = cap.pid
+                    layers = {n: l.module.module for n, l in rr.registered()}
+                    if rank == 0:
+                        interp.layers = layers
+                    cap = Capture(layers, interp)
+                    cap.pid = pid
+                    a = rr.pre._assignment
+                    out['expected_dec'] = sum(
+                        int(a.inv_worker(n, f) == rank)
+                        for n in a.get_layers() for f in a.get_factors(n))
                 elif act == 'mem':
-                    rr.pre.memory_usage()
+                    out['mem'] = dict(rr.pre.memory_usage())
                 else:
                     raise ValueError(act)
+        except simdist.SimStall:
+            raise
         except Exception as e:  # noqa: BLE001
-            raised = e
+            out['raised'] = e
+        out['lin'] = list(ll.calls)
+        if out['raised'] is None:
+            pre = rr.pre
+            out['steps'] = pre.steps
+            out['F'] = pre.factor_update_steps
+            out['I'] = pre.inv_update_steps
+            out['hp'] = {'damping': pre.damping,
+                         'factor_decay': pre.factor_decay,
+                         'kl_clip': pre.kl_clip, 'lr': pre.lr}
+            out['factors'] = {
+                n: {'A': peek(l, 'a_factor'), 'G': peek(l, 'g_factor')}
+                for n, l in rr.registered()}
+            out['hold'] = {n: kaisa.second_order_held(l)
+                           for n, l in rr.registered()}
+            out['gw'] = {n: rr.pre._assignment.is_grad_worker(n)
+                         for n, _ in rr.registered()}
+            if act == 'step':
+                out['grads'] = rr.grads()
+                rr.sgd()
+        recs.append(out)
+        if out['raised'] is not None:
+            if cfg.W > 1:
+                raise out['raised']
+            break
+    cap.remove()
+    return recs
+
+
+def compare(cfg: kaisa.Config, hist: list[dict[str, Any]],
+            recs: list[dict[str, Any]], interp: Interp, rank: int = 0,
+            ) -> dict[str, Any]:
+    """Phase 2: compare the recorded projections with the spec's expectation."""
+    mism: list[dict[str, Any]] = []
+    stats = {'max_factor_err': 0.0, 'max_grad_err': 0.0, 'steps': 0,
+             'raises': 0, 'max_cond': 0.0, 'nu_active': 0, 'loads': 0,
+             'refresh_checks': 0, 'max_resid': 0.0}
+    dtype = kaisa.DT[cfg.param_dtype]
+    layers = interp.layers
+
+    def add(cat: str, i: int, msg: str) -> None:
+        mism.append({'cat': cat, 'at': i, 'act': hist[i]['act'], 'msg': msg,
+                     'rank': rank})
+
+    for i, (rec, out) in enumerate(zip(hist, recs)):
+        act, x, obs = rec['act'], rec['x'], rec['obs']
+        raised = out['raised']
         exp_raise = bool(x.get('raises'))
         if exp_raise:
             stats['raises'] += 1
@@ -268,32 +368,30 @@ def replay(cfg: kaisa.Config, hist: list[dict[str, Any]], seed: int,
             add('raise', i, f'unexpected exception: {type(raised).__name__}: '
                             f'{str(raised)[:200]}')
             break
-        # ---- compare projected state -------------------------------------
-        pre = rr.pre
-        if pre.steps != obs['steps']:
-            add('steps', i, f'steps={pre.steps} spec {obs["steps"]}')
-        if pre.factor_update_steps != obs['F']:
-            add('hp', i, f'factor_update_steps={pre.factor_update_steps} '
-                         f'spec {obs["F"]}')
-        if pre.inv_update_steps != obs['I']:
-            add('hp', i, f'inv_update_steps={pre.inv_update_steps} '
-                         f'spec {obs["I"]}')
-        for p, getter in (('damping', lambda: pre.damping),
-                          ('factor_decay', lambda: pre.factor_decay),
-                          ('kl_clip', lambda: pre.kl_clip),
-                          ('lr', lambda: pre.lr)):
+        if act == 'eval' and not out.get('evalframe_ok', True):
+            add('evalframe', i, 'K-FAC state changed in eval mode')
+        if out['steps'] != obs['steps']:
+            add('steps', i, f'steps={out["steps"]} spec {obs["steps"]}')
+        if out['F'] != obs['F']:
+            add('hp', i, f'factor_update_steps={out["F"]} spec {obs["F"]}')
+        if out['I'] != obs['I']:
+            add('hp', i, f'inv_update_steps={out["I"]} spec {obs["I"]}')
+        for p in ('damping', 'factor_decay', 'kl_clip', 'lr'):
             want = interp.hpval(obs['hp'][p])
-            got = getter()
+            got = out['hp'][p]
             if want is None or got is None:
                 if want is not got:
                     add('hp', i, f'{p}={got} spec {want}')
             elif abs(got - want) > 1e-12 * max(1.0, abs(want)):
                 add('hp', i, f'{p}={got} spec {want}')
-        sd = pre.state_dict(include_factors=True)['layers']
         for name in layers:
             for kind, key in (('A', 'aFac'), ('G', 'gFac')):
                 want_t = interp.factor(obs[key], name, kind)
-                got_t = sd[name][kind]
+                got_t = out['factors'][name][kind]
+                if isinstance(got_t, str):      # pending future: not readable
+                    stats['pending_factor_reads'] = \
+                        stats.get('pending_factor_reads', 0) + 1
+                    continue
                 if want_t is None or got_t is None:
                     if not (want_t is None and got_t is None):
                         add('factor', i, f'{name}.{kind}: presence differs '
@@ -306,17 +404,23 @@ def replay(cfg: kaisa.Config, hist: list[dict[str, Any]], seed: int,
                 stats['max_factor_err'] = max(stats['max_factor_err'], e)
                 tol = TOL_FACTOR * factor_tol_scale(got_t.dtype)
                 if e > tol:
-                    add('factor', i, f'{name}.{kind}: rel err {e:.3e} > {tol:.1e}')
-                if not torch.equal(got_t, got_t.t()):
-                    if rel(got_t, got_t.t()) > 1e-6 * factor_tol_scale(got_t.dtype):
-                        add('factor', i, f'{name}.{kind}: not symmetric')
+                    add('factor', i,
+                        f'{name}.{kind}: rel err {e:.3e} > {tol:.1e}')
+                if rel(got_t, got_t.t()) > 1e-6 * factor_tol_scale(got_t.dtype):
+                    add('factor', i, f'{name}.{kind}: not symmetric')
+                ev = torch.linalg.eigvalsh(
+                    (got_t.double() + got_t.double().t()) / 2)
+                if ev.min().item() < -1e-5 * factor_tol_scale(got_t.dtype) * \
+                        max(1.0, ev.max().item()):
+                    add('factor', i, f'{name}.{kind}: not PSD '
+                                     f'(min eig {ev.min().item():.3e})')
         if act == 'step':
             stats['steps'] += 1
-            want, info = interp.grads(x['grad'], pre_grads)
+            want, info = interp.grads(x['grad'], out['pre_grads'])
             stats['max_cond'] = max(stats['max_cond'], info['cond'])
             if info['nu'] < 1.0:
                 stats['nu_active'] += 1
-            got = rr.grads()
+            got = out['grads']
             tol = TOL_GRAD * grad_tol_scale(cfg) * max(1.0, info['cond'] / 50)
             for k, wv in want.items():
                 e = rel(got[k], wv)
@@ -324,31 +428,85 @@ def replay(cfg: kaisa.Config, hist: list[dict[str, Any]], seed: int,
                 if e > tol:
                     add('grad', i, f'{k}: rel err {e:.3e} > {tol:.1e} '
                                    f'(nu={info["nu"]:.4g})')
-                if got[k].dtype != pre_grads[k].dtype or \
-                        got[k].shape != pre_grads[k].shape:
+                pg = out['pre_grads'][k]
+                if got[k].dtype != pg.dtype or got[k].shape != pg.shape:
                     add('grad', i, f'{k}: dtype/shape changed')
-            n_dec = len(ll.calls)
+                if not got[k].is_contiguous():
+                    add('grad', i, f'{k}: not contiguous')
+            n_dec = len(out['lin'])
             stats['refresh_checks'] += 1
-            if x['refresh'] and n_dec != 2 * len(layers):
-                add('refresh', i, f'refresh step but {n_dec} decompositions '
-                                  f'for {len(layers)} layers')
+            if x['refresh'] and n_dec != out['expected_dec']:
+                add('refresh', i, f'refresh step but {n_dec} decompositions, '
+                                  f'expected {out["expected_dec"]}')
             if not x['refresh'] and n_dec != 0:
-                add('refresh', i, f'{n_dec} decompositions on a non-refresh step')
-            rr.sgd()
+                add('refresh', i,
+                    f'{n_dec} decompositions on a non-refresh step')
         elif act == 'load':
-            has = all(bool(kaisa.second_order_held(l))
-                      for _, l in rr.registered())
-            none = all(not kaisa.second_order_held(l)
-                       for _, l in rr.registered())
-            if x['hasInv'] and not has:
-                add('load', i, 'second-order data missing after load')
-            if not x['hasInv'] and not none:
-                add('load', i, 'second-order data present after load without '
-                               'recomputation')
-        elif len(ll.calls) != 0:
+            stats['loads'] += 1
+            for name in layers:
+                held = bool(out['hold'][name])
+                should = x['hasInv'] and out['gw'][name]
+                if should and not held:
+                    add('load', i, f'{name}: second-order data missing after '
+                                   f'load on a gradient worker')
+                if not should and held:
+                    add('load', i, f'{name}: second-order data present after '
+                                   f'load where none is expected')
+            if x['hasInv'] and len(out['lin']) != out['expected_dec']:
+                add('load', i, f'{len(out["lin"])} decompositions during '
+                               f'load, expected {out["expected_dec"]}')
+        elif len(out['lin']) != 0:
             add('refresh', i, f'decompositions during {act}')
-    cap.remove()
     return {'mismatches': mism, 'stats': stats}
+
+
+def replay(cfg: kaisa.Config, hist: list[dict[str, Any]], seed: int,
+           policy: Any = None) -> dict[str, Any]:
+    """Drive the real preconditioner(s) along `hist`; return mismatches.
+
+    W = 1: no simulated world.  W > 1: all ranks run the history on simdist;
+    Mean terms range over the ranks (union batch); every rank is compared.
+    """
+    from harness import simdist
+
+    torch.set_num_threads(1)
+    interp = Interp(cfg, {})
+    if cfg.W == 1:
+        recs = execute(cfg, hist, seed, 0, interp)
+        out = compare(cfg, hist, recs, interp)
+        out['comm'] = []
+        return out
+    allrecs: dict[int, list] = {}
+
+    def body(r: int) -> None:
+        allrecs[r] = []
+        execute(cfg, hist, seed, r, interp, allrecs[r])
+
+    world = simdist.World(cfg.W, policy or simdist.RandomPolicy(seed))
+    world.run(body)
+    mism: list[dict[str, Any]] = []
+    stats: dict[str, float] = {}
+    comm = [m for m in world.monitors]
+    errs = [rs.error for rs in world.ranks]
+    if any(e is not None for e in errs) or comm:
+        # uniform predicted raise is fine: check rank 0's records only
+        pass
+    for r in range(cfg.W):
+        recs = allrecs.get(r, [])
+        if len(recs) < len(hist) and not (recs and recs[-1]['raised']):
+            mism.append({'cat': 'raise', 'at': len(recs), 'rank': r,
+                         'act': hist[min(len(recs), len(hist) - 1)]['act'],
+                         'msg': f'rank {r} did not finish: {errs[r]!r}'[:300]})
+            continue
+        out = compare(cfg, hist, recs, interp, rank=r)
+        mism += out['mismatches']
+        for k, v in out['stats'].items():
+            if k.startswith('max'):
+                stats[k] = max(stats.get(k, 0.0), v)
+            elif r == 0:
+                stats[k] = stats.get(k, 0) + v
+    return {'mismatches': mism, 'stats': stats, 'comm': comm,
+            'events': len(world.events)}
 
 
 def factor_tol_scale(dt: torch.dtype) -> float:
